@@ -85,8 +85,19 @@ def raw_of(case):
     return dict((k, v) for k, v in case["base"].get("raw", []))
 
 
+def first_bad(coefs):
+    """the exception `_unpack_stoichiometries` raises on these coefficients, read entry by entry: a Derived is no
+    number (TypeError), a float that is not a whole number cannot be labelled (ValueError); None when all pass"""
+    for _, spec in coefs:
+        if spec == "derived":
+            return "TypeError"
+        if "float" in spec and Fraction(spec["float"]).denominator != 1:
+            return "ValueError"
+    return None
+
+
 def nonint(coefs):
-    return any(spec == "derived" or "float" in spec for _, spec in coefs)
+    return first_bad(coefs) is not None
 
 
 def init_arg(case):
@@ -376,9 +387,9 @@ def spec_structure(case):
     for name, r in case["base"]["rxns"]:
         if name not in maps:
             continue
-        if name in raw and nonint(raw[name]):
-            # a mapped reaction is unpacked with `v < 0` / `[k] * v`: only Python ints pass, before the map is looked at
-            return {"err": ["TypeError"]}, None
+        if name in raw and first_bad(raw[name]):
+            # a mapped reaction is unpacked first: whole numbers pass however they are written, before the map is looked at
+            return {"err": [first_bad(raw[name])]}, None
         subs, prods = unpack(r["st"])
         ns = sum(lv.get(c, 0) for c in subs)
         np_ = sum(lv.get(c, 0) for c in prods)
